@@ -195,6 +195,22 @@ def layer_numbers(NUM):
         yield ("B", ("inside",), (0.0, 1e15, (("I", "i", 0.0, 1e15, ((a, b, "x"),)), ("P", "p", 0.0, 1e15, ((b, "v"),)))), None)
 
 
+FAR = ((2.0 ** 23 + 0.5, 2.0 ** -23), (2.0 ** 31 + 0.5, 2.0 ** -20), (2.0 ** 31 + 0.5, 2.0 ** -18), (2.0 ** 40 + 0.25, 2.0 ** -10),
+       (2.0 ** 40 + 0.25, 2.0 ** -7), (1700000000.5, 9.5367431640625e-07))
+
+
+def layer_far():
+    """short but legitimate intervals far from zero (duration well above the 1e-8 threshold, yet below 1e-14 / 1e-9 of the time values),
+    saved with the DEFAULT minimumIntervalLength: nothing may be absorbed, dropped or rejected, every timestamp bit-identical"""
+    for t, d in FAR:
+        for lab in ("x", ""):
+            tiers = (("I", "i", t - 1.0, t + 1.0, ((t - 1.0, t, "w"), (t, t + d, lab), (t + d, t + 1.0, "y")) if lab else
+                      ((t - 1.0, t, "w"), (t + d, t + 1.0, "y"))),
+                     ("P", "p", t - 1.0, t + 1.0, ((t, "u"), (t + d, "v"))))
+            yield ("B", ("far", lab), (t - 1.0, t + 1.0, tiers), 1e-8)
+            yield ("B", ("far-alone", lab), (t, t + d, (("I", "i", t, t + d, ((t, t + d, lab or "z"),)),)), 1e-8)
+
+
 def layer_structure(thorough):
     G = (0.0, 1.0, 2.0, 3.0)
     ivs = [()] + [((a, b, l),) for a, b in itertools.combinations(G, 2) for l in ("x", "")] + \
@@ -319,6 +335,10 @@ def parts(tier):
                        "interval/points/tier span/file span and inside a [0,1e15] file; minimumIntervalLength=None (slivers are C04's "
                        "subject)" % len(D.NUM_QUICK if quick else D.num_thorough()),
                   bounds={"numbers": len(D.NUM_QUICK if quick else D.num_thorough())}, snippet=_snippet, chunk=8),
+        InputPart("numbers-far-from-zero", layer_far, check,
+                  rule="%d (time, duration) pairs with the time at 8e6 .. 1.1e12 s and a duration of 1e-7 .. 8e-3 s (above the 1e-8 threshold but below "
+                       "1e-14 or 1e-9 of the time value), as a labelled / unlabelled stretch between two ordinary intervals and as the only entry, "
+                       "saved with the default minimumIntervalLength in all 16 configurations" % len(FAR), bounds={}, snippet=_snippet, chunk=1),
         InputPart("structure", lambda: layer_structure(not quick), check,
                   rule="all combinations of interval lists (0-3 entries incl. empty labels) x point lists x tier spans "
                        "(equal/narrower/wider than the file's) x file spans x tier order%s; non-trivial = distinct shape"
